@@ -159,6 +159,10 @@ func (fc *FontConfig) getNextWord(text string) (int, string) {
 			}
 			endOnNext = true
 		} else if char == '\\' && controlCodeLevel == 0 {
+			if escape {
+				// The previous backslash did not start a line break code, so it is an ordinary character.
+				foundRegularRune = true
+			}
 			escape = true
 			if !foundRegularRune {
 				startPos = pos
